@@ -1,15 +1,15 @@
 SPECIFICATION Spec
 CONSTANTS
   Readers = {1, 2}
-  Vals = {1, 2}
+  Vals = {1}
   MaxCalls = 1
-  MaxWrites = 2
-  MaxFaults = 2
-  MaxExpires = 1
-  MaxDbErrs = 1
+  MaxWrites = 0
+  MaxFaults = 1
+  MaxExpires = 0
+  MaxDbErrs = 0
   Barrier = TRUE
   CacheDbErr = FALSE
   QueryOnErr = FALSE
-  TwoStepNF = FALSE
-INVARIANTS CoherentAlways
+  TwoStepNF = TRUE
+INVARIANTS FiniteTTL
 CHECK_DEADLOCK FALSE
